@@ -125,6 +125,12 @@ func (w *serverWorld) handle(ctx context.Context, p *payloads.ActivateRequestPay
 			result = kmipserver.Errorf(kmip.ResultReasonItemNotFound, "typed failure of %s", id)
 		case a == "ep":
 			result = errors.New("plain failure of " + id)
+		case a == "eL":
+			// a typed error built as a literal, not through Errorf
+			result = kmipserver.Error{Reason: kmip.ResultReasonPermissionDenied, Message: "typed literal failure of " + id}
+		case a == "eW":
+			// ... and one wrapped in another error
+			result = fmt.Errorf("handler of %s: %w", id, kmipserver.Error{Reason: kmip.ResultReasonItemNotFound})
 		case a == "pe":
 			panic(errors.New("panic(error) in " + id))
 		case a == "ps":
@@ -206,6 +212,13 @@ func (w *serverWorld) handle(ctx context.Context, p *payloads.ActivateRequestPay
 		case a == "pw":
 			w.setCount++
 			v := fmt.Sprintf("ph-%s-%d", id, w.setCount)
+			// (identifiers are text strings: some come with surrounding blanks, and are stored and read back verbatim)
+			switch w.setCount % 4 {
+			case 1:
+				v += " "
+			case 3:
+				v = "\t" + v + "\n"
+			}
 			kmipserver.SetIdPlaceholder(ctx, v)
 			w.record(hEvent{Token: tok, ID: id, Kind: "set", Value: v})
 		case a == "nq":
@@ -618,7 +631,7 @@ func itemFails(it ItemSc) bool {
 	}
 	for _, a := range strings.Split(it.Tok, ",") {
 		switch a {
-		case "et", "ep", "pe", "ps", "pS", "pi", "pn", "pk", "pK", "pm":
+		case "et", "ep", "eL", "eW", "pe", "ps", "pS", "pi", "pn", "pk", "pK", "pm":
 			return true
 		}
 	}
